@@ -91,7 +91,9 @@ fn run_scenario(sc: &Value, t: &mut Tracer) {
 		mb = mb.with_built_effect(Box::new(Halve));
 	}
 	let mut sim = Sim::new(Capacities::default(), mb, b, RATE);
-	let send_h = if send {
+	let send2 = s["send2"].as_bool().unwrap_or(false);
+	let rv2 = |k: &str| s["rv2"][k].as_i64().unwrap_or(-1);
+	let mut send_h = if send {
 		let mut sb = SendTrackBuilder::new().volume(db(vol("S")));
 		if fx("S") {
 			sb = sb.with_built_effect(Box::new(Halve));
@@ -100,6 +102,7 @@ fn run_scenario(sc: &Value, t: &mut Tracer) {
 	} else {
 		None
 	};
+	let mut send2_h = if send2 { Some(sim.manager.add_send_track(SendTrackBuilder::new()).unwrap()) } else { None };
 	let tb = |name: &str| {
 		let mut x = TrackBuilder::new().volume(db(vol(name)));
 		if fx(name) {
@@ -107,6 +110,9 @@ fn run_scenario(sc: &Value, t: &mut Tracer) {
 		}
 		if let (Some(sh), true) = (send_h.as_ref(), rv(name) >= 0) {
 			x = x.with_send(sh, db(rv(name)));
+		}
+		if let (Some(sh), true) = (send2_h.as_ref(), rv2(name) >= 0) {
+			x = x.with_send(sh, db(rv2(name)));
 		}
 		x
 	};
@@ -143,12 +149,16 @@ fn run_scenario(sc: &Value, t: &mut Tracer) {
 						}
 					}
 					"finish" => probes[x].finished.store(true, Ordering::SeqCst),
-					"drop" => {
-						if x == "AB" {
-							ha = None;
+					"drop" => match x {
+						"S" => send_h = None,
+						"S2" => send2_h = None,
+						_ => {
+							if x == "AB" {
+								ha = None;
+							}
+							hb = None;
 						}
-						hb = None;
-					}
+					},
 					_ => panic!("unknown op"),
 				}
 				t.ev(json!({"a": "op", "o": o, "x": x}));
